@@ -39,7 +39,7 @@ def numSetStr : NumSetV → String
 
 def numSet? (s : String) : Option NumSetV :=
   if s = "$" then some .searchRes
-  else if s = "empty" || s = "nil" then some (.set [])
+  else if s = "empty" || s = "nil" || s = "emptycap" then some (.set [])
   else (DriveC15.parseRanges? s '-').map NumSetV.set
 
 mutual
